@@ -79,6 +79,15 @@ theorem c06_T2_no_alias {dims : List (Nat × Nat)} {n : Nat} (acc : Accepted dim
     offset dims i ≠ offset dims j := fun h =>
   hne (c08_no_overlap_injective dims i j (acc.no_overlap rfl) hi hj h)
 
+/-- The index → offset map of a layout is injective on valid indices (what the overlap check
+guarantees, `c08_no_overlap_injective`; unlike the conservative check itself, this property is
+inherited by every sub-view). -/
+def Inj (dims : List (Nat × Nat)) : Prop :=
+  ∀ i j, ValidIdx dims i → ValidIdx dims j → offset dims i = offset dims j → i = j
+
+theorem inj_of_no_overlap {dims : List (Nat × Nat)} (h : mayOverlap dims = false) : Inj dims :=
+  fun i j hi hj heq => c08_no_overlap_injective dims i j h hi hj heq
+
 theorem accepted_of_checked {dims : List (Nat × Nat)} {n : Nat} {m : Bool}
     (h1 : (checkedMinDataLen dims).isSome) (h2 : minDataLen dims ≤ n)
     (h3 : m = true → mayOverlap dims = false) : Accepted dims n m := by
@@ -222,8 +231,8 @@ theorem c06_T2_split {dims : List (Nat × Nat)} {axis mid : Nat} {l r : View}
     (∀ j, ValidIdx r.dims j →
       r.start ≤ r.start + offset r.dims j ∧ r.start + offset r.dims j < r.stop ∧
       r.stop ≤ minDataLen dims) ∧
-    (mayOverlap dims = false → ∀ i j, ValidIdx l.dims i → ValidIdx r.dims j →
-      l.start + offset l.dims i ≠ r.start + offset r.dims j) := by
+    (Inj dims → (∀ i j, ValidIdx l.dims i → ValidIdx r.dims j →
+      l.start + offset l.dims i ≠ r.start + offset r.dims j) ∧ Inj l.dims ∧ Inj r.dims) := by
   unfold split at h
   split at h
   · next hc =>
@@ -258,7 +267,21 @@ theorem c06_T2_split {dims : List (Nat × Nat)} {axis mid : Nat} {l r : View}
         minDataLen dims
       rw [← o]
       exact c06_T1_offset_lt_min_data_len _ _ v
-    · intro hno i j hi hj
+    · intro hno
+      refine ⟨?_, fun a b ha hb hab =>
+          setSize_injective dims axis 0 mid hax (by omega) hno a b ha hb hab,
+        fun a b ha hb hab => ?_⟩
+      rotate_left
+      · have ha' : ValidIdx (setSize dims axis (sizeAt dims axis - mid)) a := by
+          split at ha <;> exact ha
+        have hb' : ValidIdx (setSize dims axis (sizeAt dims axis - mid)) b := by
+          split at hb <;> exact hb
+        have hab' : offset (setSize dims axis (sizeAt dims axis - mid)) a =
+            offset (setSize dims axis (sizeAt dims axis - mid)) b := by
+          split at hab <;> exact hab
+        exact setSize_injective dims axis mid (sizeAt dims axis - mid) hax (by omega) hno
+          a b ha' hb' hab'
+      intro i j hi hj
       have hj' : ValidIdx (setSize dims axis (sizeAt dims axis - mid)) j := by
         split at hj <;> exact hj
       rw [hR j hj']
@@ -269,7 +292,7 @@ theorem c06_T2_split {dims : List (Nat × Nat)} {axis mid : Nat} {l r : View}
         mid * strideAt dims axis + offset (setSize dims axis (sizeAt dims axis - mid)) j
       rw [← oi, ← oj]
       intro heq
-      have := c08_no_overlap_injective dims i (addAt j axis mid) hno vi vj heq
+      have := hno i (addAt j axis mid) vi vj heq
       rw [this] at gi
       omega
   · cases h
@@ -542,11 +565,10 @@ and if the parent passed the overlap check the slice maps distinct indices to di
 elements (so a `slice_axis_mut` view never aliases itself). -/
 theorem c06_T2_sliceAxis {dims : List (Nat × Nat)} {n axis s e : Nat} {v : View}
     (h : sliceAxis dims n axis s e = some v) :
-    v.stop ≤ n ∧
+    v.start ≤ n ∧ v.stop ≤ n ∧
     (∀ j, ValidIdx v.dims j →
       v.start + offset v.dims j < v.stop ∧ v.start + offset v.dims j < minDataLen dims) ∧
-    (mayOverlap dims = false → ∀ j j', ValidIdx v.dims j → ValidIdx v.dims j' →
-      offset v.dims j = offset v.dims j' → j = j') := by
+    (Inj dims → Inj v.dims) := by
   rw [sliceAxis_unfold] at h
   split at h
   · next hc =>
@@ -557,7 +579,7 @@ theorem c06_T2_sliceAxis {dims : List (Nat × Nat)} {n axis s e : Nat} {v : View
       subst hv
       simp only [rangeValid, Bool.and_eq_true, decide_eq_true_eq] at hrv
       have hle : s + (e - s) ≤ sizeAt dims axis := by omega
-      refine ⟨hrv.2, ?_, ?_⟩
+      refine ⟨hrv.1, hrv.2, ?_, ?_⟩
       · intro j hj
         rw [sliceView_dims] at hj
         have hne := valid_len_pos hj
@@ -575,8 +597,7 @@ theorem c06_T2_sliceAxis {dims : List (Nat × Nat)} {n axis s e : Nat} {v : View
           exact hp
       · intro hno j j' hj hj' heq
         rw [sliceView_dims] at hj hj' heq
-        exact setSize_injective dims axis s (e - s) hax hle
-          (fun a b ha hb hab => c08_no_overlap_injective dims a b hno ha hb hab) j j' hj hj' heq
+        exact setSize_injective dims axis s (e - s) hax hle hno j j' hj hj' heq
     · cases h
   · cases h
 
@@ -713,30 +734,29 @@ below the new storage length, and if the tensor was accepted (passed the overlap
 clipped layout still maps distinct indices to distinct elements. -/
 theorem c06_T2_clipDim {t t' : Owned} {dim s e : Nat} (h : clipDim t dim s e = some t') :
     (∀ j, ValidIdx t'.dims j → offset t'.dims j < t'.dataLen) ∧
-    (mayOverlap t.dims = false → ∀ j j', ValidIdx t'.dims j → ValidIdx t'.dims j' →
-      offset t'.dims j = offset t'.dims j' → j = j') := by
+    (Inj t.dims → Inj t'.dims) ∧ t'.dataLen ≤ t.dataLen ∧ t'.cap = t.cap := by
   rw [clipDim_unfold] at h
   by_cases hc : dim < t.dims.length ∧ s ≤ e ∧ e ≤ sizeAt t.dims dim
   · rw [if_pos hc] at h
     obtain ⟨hax, hse, hes⟩ := hc
-    have hinj : mayOverlap t.dims = false → ∀ j j', ValidIdx (setSize t.dims dim (e - s)) j →
+    have hinj : Inj t.dims → ∀ j j', ValidIdx (setSize t.dims dim (e - s)) j →
         ValidIdx (setSize t.dims dim (e - s)) j' →
         offset (setSize t.dims dim (e - s)) j = offset (setSize t.dims dim (e - s)) j' → j = j' :=
       fun hno j j' hj hj' heq => setSize_injective t.dims dim s (e - s) hax (by omega)
-        (fun a b ha hb hab => c08_no_overlap_injective t.dims a b hno ha hb hab) j j' hj hj' heq
+        hno j j' hj hj' heq
     by_cases hlen : len (setSize t.dims dim (e - s)) = 0
     · simp only [if_pos hlen] at h
       split at h
       · have ht := Option.some.inj h
         subst ht
-        exact ⟨fun j hj => absurd hlen (valid_len_pos hj), hinj⟩
+        exact ⟨fun j hj => absurd hlen (valid_len_pos hj), hinj, Nat.min_le_left _ _, rfl⟩
       · cases h
     · simp only [if_neg hlen] at h
       split at h
       · next hfit =>
         have ht := Option.some.inj h
         subst ht
-        refine ⟨fun j hj => ?_, hinj⟩
+        refine ⟨fun j hj => ?_, hinj, Nat.min_le_left _ _, rfl⟩
         have hj' : ValidIdx (setSize t.dims dim (e - s)) j := hj
         have hlt := c06_T1_offset_lt_min_data_len _ _ hj'
         show offset (setSize t.dims dim (e - s)) j <
@@ -831,18 +851,17 @@ view's own range which the parent addresses too, and a non-overlapping parent gi
 injective view (no aliasing through `slice_mut`). -/
 theorem c06_T2_slice {dims : List (Nat × Nat)} {n : Nat} {items : List RItem} {v : View}
     (hok : ItemsOk dims items) (h : trySliceR dims n items = some v) :
-    v.stop ≤ n ∧
+    v.start ≤ n ∧ v.stop ≤ n ∧
     (∀ j, ValidIdx v.dims j →
       v.start + offset v.dims j < v.stop ∧ v.start + offset v.dims j < minDataLen dims) ∧
-    (mayOverlap dims = false → ∀ j j', ValidIdx v.dims j → ValidIdx v.dims j' →
-      offset v.dims j = offset v.dims j' → j = j') := by
+    (Inj dims → Inj v.dims) := by
   rw [trySliceR_unfold] at h
   by_cases hrv : rangeValid (sliceViewR dims items) n = true
   · rw [if_pos hrv] at h
     have hv := Option.some.inj h
     subst hv
     simp only [rangeValid, Bool.and_eq_true, decide_eq_true_eq] at hrv
-    refine ⟨hrv.2, ?_, ?_⟩
+    refine ⟨hrv.1, hrv.2, ?_, ?_⟩
     · intro j hj
       have hj' : ValidIdx (sliceLoopR dims items).2 j := hj
       have hz := valid_hasZero hj'
@@ -866,7 +885,7 @@ theorem c06_T2_slice {dims : List (Nat × Nat)} {n : Nat} {items : List RItem} {
       obtain ⟨vi', oi'⟩ := slice_embed dims items hok j' hj2
       have heq' : offset (sliceLoopR dims items).2 j = offset (sliceLoopR dims items).2 j' := heq
       exact embedIdx_inj dims items hok j j' hj1 hj2
-        (c08_no_overlap_injective dims _ _ hno vi vi' (by rw [oi, oi', heq']))
+        (hno _ _ vi vi' (by rw [oi, oi', heq']))
   · rw [if_neg hrv] at h
     cases h
 
@@ -874,11 +893,10 @@ theorem c06_T2_slice {dims : List (Nat × Nat)} {n : Nat} {items : List RItem} {
 ranges in any spelling, resolved by the current `SliceRange::resolve`. -/
 theorem c06_T2_trySlice {dims : List (Nat × Nat)} {n : Nat} {items : List SItem} {v : View}
     (h : trySlice true dims n items = .ok v) :
-    v.stop ≤ n ∧
+    v.start ≤ n ∧ v.stop ≤ n ∧
     (∀ j, ValidIdx v.dims j →
       v.start + offset v.dims j < v.stop ∧ v.start + offset v.dims j < minDataLen dims) ∧
-    (mayOverlap dims = false → ∀ j j', ValidIdx v.dims j → ValidIdx v.dims j' →
-      offset v.dims j = offset v.dims j' → j = j') := by
+    (Inj dims → Inj v.dims) := by
   unfold trySlice at h
   split at h
   · cases h
@@ -922,5 +940,198 @@ theorem c06_T3_resolve_without_max_false :
     M.offsetOf [(18446744073709551613, 1)] [1] = some 1 ∧
     M.trySliceR [(8, 1)] 8 [.span 5 5] = some ⟨0, 0, [(0, 1)]⟩ := by
   decide
+
+/-! ## Any sequence of calls
+
+`VSafe` is the invariant that composes: unlike `Accepted` (which mentions the conservative
+overlap *check*, not inherited by sub-views) it only says what safety needs — every valid index
+addresses an element of the view's own storage and, for mutable views, distinct indices
+address distinct elements.  Every constructor establishes it, every view operation hands it
+to the child together with a storage range inside the parent's, and every mutating call on an
+owned tensor preserves it (a failing call leaves the tensor unchanged). -/
+
+structure VSafe (mutable : Bool) (dims : List (Nat × Nat)) (n : Nat) : Prop where
+  in_bounds : ∀ j, ValidIdx dims j → offset dims j < n
+  inj : mutable = true → Inj dims
+
+/-- Every constructor-accepted tensor is `VSafe`. -/
+theorem c06_accepted_vsafe {dims : List (Nat × Nat)} {n : Nat} {m : Bool}
+    (acc : Accepted dims n m) : VSafe m dims n :=
+  ⟨fun _ hj => c06_T2_in_bounds acc hj, fun hm => inj_of_no_overlap (acc.no_overlap hm)⟩
+
+theorem sub_facts {v : AView} {w : View} (h1 : w.start ≤ v.len) (h2 : w.stop ≤ v.len) :
+    v.base ≤ (v.sub w).base ∧ (v.sub w).base + (v.sub w).len ≤ v.base + v.len := by
+  simp only [AView.sub]; omega
+
+/-- **C06.T2o** one view-producing call (`try_slice`/`slice_mut` with indices and step-1
+ranges, `slice_axis(_mut)`, either half of `split_at(_mut)`, `broadcast` of an immutable view)
+on a `VSafe` view yields a `VSafe` view whose storage lies inside the parent's storage. -/
+theorem c06_T2_view_step {m : Bool} {v w : AView} {op : ViewOp}
+    (hs : VSafe m v.dims v.len) (h : applyView m v op = some w) :
+    VSafe m w.dims w.len ∧ v.base ≤ w.base ∧ w.base + w.len ≤ v.base + v.len := by
+  cases op with
+  | slice items =>
+    simp only [applyView] at h
+    split at h
+    · next x hx =>
+      cases h
+      obtain ⟨h1, h2, hb, hi⟩ := c06_T2_trySlice hx
+      exact ⟨⟨fun j hj => by have := (hb j hj).1; simp only [AView.sub]; omega,
+        fun hm => hi (hs.inj hm)⟩, sub_facts h1 h2⟩
+    · cases h
+  | sliceAxis axis s e =>
+    simp only [applyView, Option.map_eq_some_iff] at h
+    obtain ⟨x, hx, rfl⟩ := h
+    obtain ⟨h1, h2, hb, hi⟩ := c06_T2_sliceAxis hx
+    exact ⟨⟨fun j hj => by have := (hb j hj).1; simp only [AView.sub]; omega,
+      fun hm => hi (hs.inj hm)⟩, sub_facts h1 h2⟩
+  | splitLeft axis mid =>
+    simp only [applyView, Option.map_eq_some_iff] at h
+    obtain ⟨⟨l, r⟩, hx, rfl⟩ := h
+    unfold splitAtMut at hx
+    split at hx
+    · cases hx
+    · next l' r' hsp =>
+      split at hx
+      · next hrv =>
+        cases hx
+        simp only [rangeValid, Bool.and_eq_true, decide_eq_true_eq] at hrv
+        obtain ⟨hl, _, hd⟩ := c06_T2_split hsp
+        exact ⟨⟨fun j hj => by have := (hl j hj).1; simp only [AView.sub]; omega,
+          fun hm => (hd (hs.inj hm)).2.1⟩, sub_facts hrv.1.1 hrv.1.2⟩
+      · cases hx
+  | splitRight axis mid =>
+    simp only [applyView, Option.map_eq_some_iff] at h
+    obtain ⟨⟨l, r⟩, hx, rfl⟩ := h
+    unfold splitAtMut at hx
+    split at hx
+    · cases hx
+    · next l' r' hsp =>
+      split at hx
+      · next hrv =>
+        cases hx
+        simp only [rangeValid, Bool.and_eq_true, decide_eq_true_eq] at hrv
+        obtain ⟨_, hr, hd⟩ := c06_T2_split hsp
+        exact ⟨⟨fun j hj => by have := (hr j hj).2.1; simp only [AView.sub]; omega,
+          fun hm => (hd (hs.inj hm)).2.2⟩, sub_facts hrv.2.1 hrv.2.2⟩
+      · cases hx
+  | broadcast target =>
+    simp only [applyView] at h
+    split at h
+    · cases h
+    · next hm =>
+      simp only [Option.map_eq_some_iff] at h
+      obtain ⟨b, hb, rfl⟩ := h
+      refine ⟨⟨fun j hj => ?_, fun hm' => absurd hm' (by simpa using hm)⟩,
+        Nat.le_refl _, Nat.le_refl _⟩
+      have := (c06_T2_broadcast hb hj).1
+      have := minDataLen_le_of_bounded hs.in_bounds
+      show offset b j < v.len
+      omega
+
+/-- **C06.T2p** (any sequence of views): after any chain of view-producing calls starting from
+a `VSafe` view — in particular from any constructor-accepted tensor — the resulting view is
+`VSafe` and its storage lies inside the storage of the view the chain started from.  Hence
+every element it can address (`base + offset`, `offset < len`) is an element of the original
+storage, and mutable views obtained this way never map two indices to one element. -/
+theorem c06_T2_view_chain {m : Bool} : ∀ (ops : List ViewOp) {v w : AView},
+    VSafe m v.dims v.len → runViews m v ops = some w →
+    VSafe m w.dims w.len ∧ v.base ≤ w.base ∧ w.base + w.len ≤ v.base + v.len := by
+  intro ops
+  induction ops with
+  | nil =>
+    intro v w hs h
+    simp only [runViews, Option.some.injEq] at h
+    subst h
+    exact ⟨hs, Nat.le_refl _, Nat.le_refl _⟩
+  | cons op ops ih =>
+    intro v w hs h
+    simp only [runViews] at h
+    split at h
+    · cases h
+    · next u hu =>
+      obtain ⟨hsu, h1, h2⟩ := c06_T2_view_step hs hu
+      obtain ⟨hsw, h3, h4⟩ := ih hsu h
+      exact ⟨hsw, by omega, by omega⟩
+
+/-- Non-vacuity: rows 1..3 of a 3×4 tensor, then the right half of a column split, then a
+reversed (empty) slice of that — a chain of three views, the second one non-contiguous. -/
+example : runViews true ⟨0, 12, [(3, 4), (4, 1)]⟩
+      [.sliceAxis 0 1 3, .splitRight 1 1, .slice [.range 0 none, .range 2 (some 1)]] =
+    some ⟨0 + 4 + 1 + 0, 0, [(2, 4), (0, 1)]⟩ ∧
+    runViews true ⟨0, 12, [(3, 4), (4, 1)]⟩ [.sliceAxis 0 1 3, .splitRight 1 1] =
+      some ⟨5, 7, [(2, 4), (3, 1)]⟩ := by decide
+
+/-- The invariant of an owned tensor. -/
+def OSafe (t : Owned) : Prop := VSafe true t.dims t.dataLen ∧ t.dataLen ≤ t.cap
+
+/-- **C06.T2q** every mutating call on an owned tensor (`clip_dim`, `append`; successful or
+failing) preserves the invariant… -/
+theorem c06_T2_owned_step {t : Owned} (op : OwnedOp) (hs : OSafe t) : OSafe (stepOwned t op) := by
+  cases op with
+  | clip dim s e =>
+    simp only [stepOwned]
+    cases hc : clipDim t dim s e with
+    | none => exact hs
+    | some t' =>
+      obtain ⟨hb, hi, hle, hcap⟩ := c06_T2_clipDim hc
+      show OSafe t'
+      exact ⟨⟨hb, fun _ => hi (hs.1.inj rfl)⟩, by rw [hcap]; exact Nat.le_trans hle hs.2⟩
+  | append axis other =>
+    simp only [stepOwned]
+    split
+    · next t' ha =>
+      obtain ⟨acc, hcap, _, _⟩ := c06_T2_append ha hs.2
+      exact ⟨c06_accepted_vsafe acc, hcap⟩
+    · exact hs
+
+/-- …hence so does **any program** of such calls, from any constructor-accepted tensor. -/
+theorem c06_T2_owned_program (ops : List OwnedOp) {t : Owned} (hs : OSafe t) :
+    OSafe (ops.foldl stepOwned t) := by
+  induction ops generalizing t with
+  | nil => exact hs
+  | cons op ops ih => exact ih (c06_T2_owned_step op hs)
+
+/-- Non-vacuity: `with_capacity([3,2], 0)`, two appends, a failing append, a clip. -/
+example : [OwnedOp.append 0 [(2, 0), (2, 0)], .append 0 [(2, 0), (2, 0)], .clip 0 1 2].foldl
+      stepOwned ⟨[(0, 2), (2, 1)], 0, 6⟩ = ⟨[(1, 2), (2, 1)], 2, 6⟩ := by decide
+
+/-! ## `DynLayout` axis arguments (audit H1) -/
+
+/-- **C06 was false before fix `90df0e8`**: in a release build
+`Tensor::<u32>::from_data(&[2,3], ..).clip_dim(2, 0..1)` overwrites the strides `[3,1]` with
+`[1,1]` and *then* panics; after catching the panic the valid indices `[0,1]` and `[1,0]` of
+the (mutable) tensor address the same element.  `remove_axis(4)` on a `[1,3,2]` tensor with
+strides `[6,1,3]` leaves shape `[1,3]` with strides `[2,6,3]`: index `[0,2]` maps to offset 12
+of a 6-element storage.  Both reproduced on the real crate by the harness. -/
+theorem c06_dyn_axis_old_false :
+    OldDyn.clipDim [2, 3, 3, 1] 2 0 1 = ([2, 3, 1, 1], true) ∧
+    OldDyn.dims [2, 3, 1, 1] = [(2, 1), (3, 1)] ∧
+    validIdx [(2, 1), (3, 1)] [0, 1] = true ∧ validIdx [(2, 1), (3, 1)] [1, 0] = true ∧
+    offset [(2, 1), (3, 1)] [0, 1] = offset [(2, 1), (3, 1)] [1, 0] ∧
+    OldDyn.removeAxis [1, 3, 2, 6, 1, 3] 4 = ([1, 3, 2, 6, 3], true) ∧
+    OldDyn.dims [1, 3, 2, 6, 3] = [(1, 2), (3, 6)] ∧
+    validIdx [(1, 2), (3, 6)] [0, 2] = true ∧ offset [(1, 2), (3, 6)] [0, 2] = 12 := by
+  decide
+
+/-- The fixed code refuses both calls before touching the layout (a failing call is the
+identity on the state, `stepOwned`), and `size` / `stride` / `remove_axis` / `insert_axis` /
+`move_axis` with an axis past the rank are refused too. -/
+theorem c06_dyn_axis_fixed :
+    clipDim ⟨[(2, 3), (3, 1)], 6, 6⟩ 2 0 1 = none ∧
+    stepOwned ⟨[(2, 3), (3, 1)], 6, 6⟩ (.clip 2 0 1) = ⟨[(2, 3), (3, 1)], 6, 6⟩ ∧
+    removeAxis [(1, 6), (3, 1), (2, 3)] 4 = none ∧
+    (∀ dims axis, dims.length ≤ axis → sizeOf? dims axis = none ∧ strideOf? dims axis = none ∧
+      removeAxis dims axis = none ∧ insertAxis dims (axis + 1) = none ∧
+      (∀ k, moveAxis dims axis k = none ∧ moveAxis dims k axis = none) ∧
+      (∀ t s e, t.dims = dims → clipDim t axis s e = none)) := by
+  refine ⟨by decide, by decide, by decide, ?_⟩
+  intro dims axis h
+  have h' : ¬ axis < dims.length := by omega
+  refine ⟨by simp [sizeOf?, h'], by simp [strideOf?, h'], by simp [removeAxis, h'],
+    by simp [insertAxis]; omega, fun k => ⟨by simp [moveAxis, h'], by simp [moveAxis, h']⟩, ?_⟩
+  intro t s e ht
+  subst ht
+  rw [clipDim_unfold, if_neg (fun hc => h' hc.1)]
 
 end RtenVerif.TensorBounds
